@@ -44,10 +44,15 @@ def c_resolve(P):
     has = models.map_has(P, members, name)
     par = P.getattr(scope, "parent")
     no_parent = zbool(P.identical(par, None))
+    # Python looks a name up in the enclosing function / class scopes Griffe models, then in the module's globals, then in the builtins: the module is the
+    # last scope -- the names of the package the module lives in are not visible in it (a sub-module `pkg/int.py` does not capture `int` in `pkg/mod.py`)
+    last_scope = z3.Or(no_parent, z3.BoolVal(P.resolve_cls(scope) == "Module"))
     if kind == "raise":
-        P.prove("only_NameResolutionError_at_the_top_scope", z3.And(z3.Not(has), no_parent, P.resolve_cls(res) == "NameResolutionError"), exc=P.resolve_cls(res))
+        P.prove("only_NameResolutionError_and_only_when_the_module_scope_does_not_bind_the_name", z3.And(z3.Not(has), last_scope, P.resolve_cls(res) == "NameResolutionError"),
+                exc=P.resolve_cls(res))
         P.cover("resolve.raise")
         return
+    P.prove("a_name_the_module_scope_does_not_bind_is_left_to_the_builtins", z3.Or(has, z3.Not(last_scope)))
     if P.branch(has):
         m = models.map_get(P, members, name)
         m = P.choose(m) if isinstance(m, SUnion) else m
